@@ -52,13 +52,26 @@ func VfC11_Redirection() {
 	c := clients["10.0.0.1:7000"]
 	c.onRedirection = u.handleRedirection
 	c.onClusterDown = u.handleClusterDown
-	words := []string{"MOVED", "moved", "ASK", "aSk", "CLUSTERDOWN"}
+	// the last spellings fold to ASK / MOVED-like words under Unicode simple folding (U+017F long s,
+	// U+212A Kelvin sign) although they are not ASCII
+	words := []string{"MOVED", "moved", "ASK", "aSk", "CLUSTERDOWN", "a\u017fk", "AS\u212a", "clu\u017fterdown"}
 	w := words[nd.Concrete(nd.Choice("word", len(words)))]
 	tl := nd.Concrete(nd.IntRange("taillen", 0, nd.Param("tail", 6)))
-	text := append([]byte(w), nd.Bytes("t", tl)...)
+	text := []byte(w)
+	if nd.Bool("space-after-word") {
+		text = append(text, ' ') // the word boundary is concrete: the classification sees exactly w
+	}
+	text = append(text, nd.Bytes("t", tl)...)
 	req := newSimpleRequest(newArray(*newBulkString("get"), *newBulkString("k")))
 	nd.PanicLabel("redirection")
 	nd.Class("short-redirect", true)
+	nonASCII := false
+	for i := 0; i < len(w); i++ {
+		if w[i] >= 0x80 {
+			nonASCII = true
+		}
+	}
+	nd.Class("non-ascii-fold", nonASCII)
 	c.handleResp(req, &RespValue{Type: Error, Text: text})
 	nd.Assert(vfDone(req.done) || vfForwarded(clients) > 0, "the request is answered or re-sent")
 	nd.Cover("handled")
